@@ -60,6 +60,17 @@ struct RunOut {
     quarantined_bytes: Vec<u8>,
     findings: Vec<Finding>,
     fired: bool,
+    /// C07 monitors: snapshot comparison between consecutive moments + append-only log predicates
+    no_harm: Vec<Finding>,
+}
+
+/// Which clauses a run is judged by (the runs are the same).
+#[derive(Debug, Clone, Copy, PartialEq, Eq)]
+pub enum FaultOracle {
+    /// C11: acknowledged data stays readable, failed operations stay invisible, storage usable
+    Containment,
+    /// C07: blob bytes are never modified / truncated / deleted, ids are never reused
+    NoHarm,
 }
 
 /// Operations appended after the history once the fault has cleared.
@@ -83,8 +94,9 @@ async fn main_task(spec: FaultSpec) -> RunOut {
             p.armed = true;
         }
     });
+    let mut snap = crate::tap::snapshot_blobs(&dir);
     let all: Vec<Op> = spec.history.iter().cloned().chain(epilogue()).collect();
-    for op in all {
+    for (step, op) in all.into_iter().enumerate() {
         let fired_before = ctl::with_ctl(|c| c.fault.borrow().as_ref().map_or(false, |p| p.fired));
         ctl::with_ctl(|c| c.log.borrow_mut().mark(format!("begin {}", op.short())));
         let outcome = w.apply(op).await;
@@ -99,6 +111,11 @@ async fn main_task(spec: FaultSpec) -> RunOut {
             }
         }
         ctl::quiesce().await;
+        let snap2 = crate::tap::snapshot_blobs(&dir);
+        for v in crate::tap::snapshot_violations(&snap, &snap2) {
+            out.no_harm.push(finding("snapshot", format!("across {} (step {step}): {v}", op.short())));
+        }
+        snap = snap2;
         let fired_after = ctl::with_ctl(|c| c.fault.borrow().as_ref().map_or(false, |p| p.fired));
         let mut obs = BTreeMap::new();
         for k in &spec.keys {
@@ -133,6 +150,9 @@ async fn main_task(spec: FaultSpec) -> RunOut {
             }
             out.after_restart = Some(obs);
             out.corrupted_after = w.s().corrupted_blobs_count();
+            for v in crate::tap::snapshot_violations(&snap, &crate::tap::snapshot_blobs(&dir)) {
+                out.no_harm.push(finding("snapshot", format!("across the final close + restart: {v}")));
+            }
             let _ = w.close().await;
         }
     }
@@ -147,7 +167,7 @@ fn contains(hay: &[u8], needle: &[u8]) -> bool {
     !needle.is_empty() && hay.windows(needle.len()).any(|w| w == needle)
 }
 
-fn judge(spec: &FaultSpec, run: &RunOut, end: &EndState, panics: &[String]) -> Vec<Finding> {
+fn judge(spec: &FaultSpec, run: &RunOut, end: &EndState, panics: &[String], oracle: FaultOracle) -> Vec<Finding> {
     let mut fs = run.findings.clone();
     match end {
         EndState::Finished => {}
@@ -156,6 +176,12 @@ fn judge(spec: &FaultSpec, run: &RunOut, end: &EndState, panics: &[String]) -> V
     }
     if !panics.is_empty() {
         fs.push(finding("panic", format!("{panics:?}")));
+    }
+    if oracle == FaultOracle::NoHarm {
+        // only what C07 states; a run that did not complete is reported by C11
+        fs.retain(|f| f.kind == "machinery");
+        fs.extend(run.no_harm.iter().cloned());
+        return fs;
     }
     if !fs.is_empty() {
         return fs;
@@ -318,10 +344,14 @@ fn run_one(spec: &FaultSpec, plan: Option<FaultPlan>) -> (RunOut, EndState, Vec<
             _ => {}
         }
     }
-    let out = exec.result.unwrap_or_else(|e| RunOut {
+    let mut out = exec.result.unwrap_or_else(|e| RunOut {
         findings: vec![finding("panic", format!("{e}; {panics:?}"))],
         ..Default::default()
     });
+    let mut ever = BTreeSet::new();
+    for v in crate::tap::append_only_violations(&exec.ctl.log.borrow(), 0, &mut ever) {
+        out.no_harm.push(finding("append_only", v));
+    }
     (out, exec.trace.end, panics, seen)
 }
 
@@ -347,14 +377,14 @@ pub struct FaultResult {
     pub violations: Vec<FaultViolation>,
 }
 
-pub fn run(specs: &[FaultSpec], thorough: bool, with_reads: bool, threads: usize) -> FaultResult {
+pub fn run(specs: &[FaultSpec], thorough: bool, with_reads: bool, threads: usize, oracle: FaultOracle) -> FaultResult {
     // menu per history from the fault-free baseline
     let mut items: Vec<(usize, FaultPlan)> = Vec::new();
     let mut stats = FaultStats::default();
     let mut violations = Vec::new();
     for (si, spec) in specs.iter().enumerate() {
         let (out, end, panics, seen) = run_one(spec, None);
-        let base = judge(spec, &out, &end, &panics);
+        let base = judge(spec, &out, &end, &panics, oracle);
         if !base.is_empty() {
             stats.violations += 1;
             violations.push(FaultViolation {
@@ -408,7 +438,7 @@ pub fn run(specs: &[FaultSpec], thorough: bool, with_reads: bool, threads: usize
                 }
                 let (si, plan) = &items[i];
                 let (out, end, panics, _) = run_one(&specs[*si], Some(plan.clone()));
-                let fs = judge(&specs[*si], &out, &end, &panics);
+                let fs = judge(&specs[*si], &out, &end, &panics, oracle);
                 let digest = {
                     use std::hash::{Hash, Hasher};
                     let mut h = std::collections::hash_map::DefaultHasher::new();
